@@ -15,6 +15,7 @@ mod report;
 mod setsut;
 mod tableprobes;
 mod tablesut;
+mod tablefaults;
 
 use report::Tier;
 use serde_json::{json, Value};
